@@ -573,7 +573,9 @@ const std::vector<std::vector<UnitsChoice>> &families()
     static const std::vector<std::vector<UnitsChoice>> f = {
         {{"dimensionless", 1.0}, {"percent_like", 0.01}, {"kilo_dimensionless", 1000.0}},
         {{"volt", 1.0}, {"millivolt", 1e-3}, {"kilovolt", 1e3}, {"decivolt", 0.1}},
-        {{"second", 1.0}, {"millisecond", 1e-3}, {"minute_like", 60.0}}};
+        {{"second", 1.0}, {"millisecond", 1e-3}, {"minute_like", 60.0}},
+        // compound units: several unit children, some referencing user-defined units that carry a scale
+        {{"volt_per_second", 1.0}, {"millivolt_per_millisecond", 1.0}, {"kilovolt_per_millisecond", 1e6}, {"millivolt_per_minute", 1e-3 / 60.0}, {"kilovolt_per_second", 1e3}}};
     return f;
 }
 
@@ -836,7 +838,7 @@ SemModel generateSemModel(Rng &rng, const SemOptions &opt)
             m.voi = newQuantity(QKind::VOI, 2);
         }
         for (int i = 0; i < opt.constants; ++i) {
-            int qi = newQuantity(QKind::CONSTANT, static_cast<int>(rng.below(2)));
+            int qi = newQuantity(QKind::CONSTANT, (opt.compoundUnits && rng.chance(0.4)) ? 3 : static_cast<int>(rng.below(2)));
             m.q[static_cast<size_t>(qi)].init = niceValue(rng);
             usable.push_back(qi);
         }
@@ -856,7 +858,7 @@ SemModel generateSemModel(Rng &rng, const SemOptions &opt)
             q.lhsOnRight = rng.chance(0.15);
         };
         for (int i = 0; i < opt.computedConstants; ++i) {
-            int qi = newQuantity(QKind::COMPUTED_CONSTANT, static_cast<int>(rng.below(2)));
+            int qi = newQuantity(QKind::COMPUTED_CONSTANT, (opt.compoundUnits && rng.chance(0.4)) ? 3 : static_cast<int>(rng.below(2)));
             define(qi, usable, rng.range(1, opt.exprDepth));
             // a computed constant must read at least one quantity or literal: fine either way
             m.order.push_back(qi);
@@ -899,7 +901,7 @@ SemModel generateSemModel(Rng &rng, const SemOptions &opt)
         std::vector<int> algebraicIds;
         if (opt.ode) {
             for (int i = 0; i < opt.algebraics; ++i) {
-                int qi = newQuantity(QKind::ALGEBRAIC, static_cast<int>(rng.below(2)));
+                int qi = newQuantity(QKind::ALGEBRAIC, (opt.compoundUnits && rng.chance(0.4)) ? 3 : static_cast<int>(rng.below(2)));
                 auto &q = m.q[static_cast<size_t>(qi)];
                 int comp = q.inst[0].comp;
                 std::vector<int> dyn = stateIds;
@@ -977,7 +979,7 @@ SemModel generateSemModel(Rng &rng, const SemOptions &opt)
             continue;
         }
         // implicit systems
-        if (opt.nla) {
+        for (int sysIndex = 0; opt.nla && sysIndex < std::max(1, opt.nlaSystems); ++sysIndex) {
             NlaSystem sys;
             sys.comp = static_cast<int>(rng.below(static_cast<uint64_t>(m.ncomp)));
             int n = rng.range(1, 3);
@@ -989,7 +991,7 @@ SemModel generateSemModel(Rng &rng, const SemOptions &opt)
                 q.inst[0].scale = 1.0;
                 q.planted = niceValue(rng);
                 q.init = q.planted + (rng.chance(0.5) ? 0.2 : -0.15); // initial guess near the planted solution
-                q.nla = 0;
+                q.nla = sysIndex;
                 sys.unknowns.push_back(qi);
             }
             // equations: diagonally dominant linear combination + mild nonlinearity, right-hand side planted
@@ -1090,7 +1092,7 @@ IrModel semToIr(const SemModel &m)
         }
     }
     auto addScaled = [&](const std::string &name, const std::string &ref, const std::string &prefix, const std::string &mult) {
-        if (used.count(name) == 0U) {
+        if (used.count(name) == 0U || ir.findUnits(name) >= 0) {
             return;
         }
         IrUnits u;
@@ -1110,6 +1112,35 @@ IrModel semToIr(const SemModel &m)
     addScaled("millivolt", "volt", "milli", "");
     addScaled("kilovolt", "volt", "kilo", "");
     addScaled("decivolt", "volt", "", "0.1");
+    addScaled("millisecond", "second", "-3", "");
+    addScaled("minute_like", "second", "", "60");
+    // compound units: each child references a user-defined units (which are added below if not yet present)
+    auto addCompound = [&](const std::string &name, const std::string &num, const std::string &den) {
+        if (used.count(name) == 0U) {
+            return;
+        }
+        IrUnits u;
+        u.name = name;
+        IrUnit a;
+        a.ref = num;
+        u.units.push_back(a);
+        IrUnit b;
+        b.ref = den;
+        b.hasExp = true;
+        b.exp = "-1";
+        u.units.push_back(b);
+        ir.units.push_back(u);
+        used.insert(num);
+        used.insert(den);
+    };
+    addCompound("volt_per_second", "volt", "second");
+    addCompound("millivolt_per_millisecond", "millivolt", "millisecond");
+    addCompound("kilovolt_per_millisecond", "kilovolt", "millisecond");
+    addCompound("millivolt_per_minute", "millivolt", "minute_like");
+    addCompound("kilovolt_per_second", "kilovolt", "second");
+    // (the user units the compounds are built from)
+    addScaled("millivolt", "volt", "milli", "");
+    addScaled("kilovolt", "volt", "kilo", "");
     addScaled("millisecond", "second", "-3", "");
     addScaled("minute_like", "second", "", "60");
     for (int c = 0; c < m.ncomp; ++c) {
